@@ -159,6 +159,7 @@ class DbSuite:
         spec = lib.run_sharded(lib.DRIVER, "dbhist", self.cases, workdir, tag + "s")
         prop, corr = [], []
         dumps = []
+        gcfacts = []
         for c in self.cases:
             cid = c.split(" ", 1)[0]
             ops = c.split(" ")[2:]
@@ -190,9 +191,11 @@ class DbSuite:
                         elif o == "E" and not a.startswith("stats:"):
                             bad = (i, "get_descriptor(Stats) failed: %s" % a)
                             break
-                        elif o == "Y" and a != "exact":
-                            bad = (i, "directory contents are not exactly the needed files: %s" % a)
-                            break
+                        elif o == "Y":
+                            gcfacts.append((c, i, a))
+                            if not a.startswith("exact#"):
+                                bad = (i, "directory contents are not exactly the needed files: %s" % a.split("#")[0])
+                                break
                         elif o == "W" and a != "ok":
                             bad = (i, "background work did not quiesce")
                             break
@@ -203,6 +206,16 @@ class DbSuite:
             if bad:
                 prop.append({"case": c, "impl": lib.trunc(il, 2000), "spec": lib.trunc(sl, 2000), "model": "",
                              "detail": str(bad[1]), "at": bad[0]})
+        # the remove_obsolete_files model judges every observed directory
+        if gcfacts:
+            gv = lib.run_sharded(lib.DRIVER, "gccheck", ["g%d %s" % (n, x[2].split("#", 1)[1]) for n, x in enumerate(gcfacts) if "#" in x[2]], workdir, tag + "g")
+            for n, (c, i, a) in enumerate(gcfacts):
+                v = gv.get("g%d" % n, "")
+                verdict = v.split(" ", 1)[1] if " " in v else v
+                if (verdict == "exact") != a.startswith("exact#"):
+                    corr.append({"case": c, "impl": lib.trunc(a, 600), "model": lib.trunc(verdict, 300), "kind": "gc-model",
+                                 "detail": "directory judged %s by the harness rule but %s by the extracted remove_obsolete_files model" % (a.split("#")[0], verdict)})
+            self.stats["gc_model_checks"] = len(gcfacts)
         # the DatabaseIterator model on the dumped state vs the implementation's iterator
         iterc = []
         for c in self.cases:
